@@ -38,6 +38,12 @@ class Run:
         if kind == "dropped":  # some rows with infinite death exist in both diagrams and are filtered out
             finite = set()
             flags = dict(strict_sub=True, sub_nonempty=True)
+        elif kind == "allinf1":  # the first diagram holds only points with infinite death: nothing is left of it
+            finite = {b}
+            flags = dict(all_dropped={ra}, sub_nonempty=True)
+        elif kind == "allinf2":
+            finite = {a}
+            flags = dict(all_dropped={rb}, sub_nonempty=True)
         elif kind == "empty1":
             nonempty = {rb}
             flags = dict(empty={ra}, sub_nonempty=True)
